@@ -290,19 +290,21 @@ def one_assign(bs, acc, cls, d, pname, v, exp):
 
 
 def arrays(bs, acc):
-    for dt, good, bad in [('uint8', [0, 255], [256, -1]), ('int8', [-128, 127], [128, -129]), ('uint3', [7], [8, -1]), ('int4', [-8, 7], [8, -9]), ('<H', [65535], [65536, -1]),
-                          ('>b', [-128], [128]), ('hex4', ['f'], ['g', 'ff', '']), ('bin2', ['01'], ['1', '012', '111']), ('bool', [True, 0], [2, -1]), ('float16', [1.0], []),
-                          ('uintle16', [65535], [65536]), ('intbe24', [-(1 << 23)], [1 << 23]), ('oct3', ['7'], ['8', '77']), ('e8m0mxfp', [2.0], [3.0, -1.0])]:
+    # good: at least two *different* acceptable values, so that an element written before a failure is visible
+    for dt, good, bad in [('uint8', [0, 255], [256, -1]), ('int8', [-128, 127], [128, -129]), ('uint3', [7, 0], [8, -1]), ('int4', [-8, 7], [8, -9]), ('<H', [65535, 1], [65536, -1]),
+                          ('>b', [-128, 5], [128]), ('hex4', ['f', '0'], ['g', 'ff', '']), ('bin2', ['01', '10'], ['1', '012', '111']), ('bool', [True, 0], [2, -1]), ('float16', [1.0, 2.0], []),
+                          ('uintle16', [65535, 2], [65536]), ('intbe24', [-(1 << 23), 1], [1 << 23]), ('oct3', ['7', '1'], ['8', '77']), ('e8m0mxfp', [2.0, 4.0], [3.0, -1.0])]:
         for ctor_bad in bad:
             got = obs(lambda: bs.Array(dt, [good[0], ctor_bad]).data, lambda r: r.bin)
             judge(acc, 'array', 'reject', got, dict(dtype=dt, value=repr(ctor_bad), route='ctor', group='array-ctor'),
                   ["import bitstring", "try:", f"    a = bitstring.Array({dt!r}, [{good[0]!r}, {ctor_bad!r}])", "except ValueError:", "    pass", "else:", "    assert False, a"])
         for v in good + bad:
             for op, src in (('setitem', "a[1] = V"), ('append', "a.append(V)"), ('insert', "a.insert(0, V)"), ('extend', "a.extend([G, V])"), ('setslice', "a[0:1] = [G, V]"),
-                            ('setslice-eq', "a[0:2] = [G, V]"), ('iadd', "a += [V]" if False else "a.extend([V])")):
-                a = bs.Array(dt, [good[0], good[-1]])
+                            ('setslice-eq', "a[0:2] = [G, V]"), ('setslice-eq3', "a[0:3] = [G, G, V]"), ('setslice-step', "a[::2] = [G, V]"), ('setslice-gen', "a[0:2] = (x for x in [G, V])"),
+                            ('extend-tuple', "a.extend((G, V))"), ('extend-gen', "a.extend(x for x in [G, V])")):
+                a = bs.Array(dt, [good[0], good[0], good[0]])
                 before = a.data.bin
-                ns = dict(a=a, V=v, G=good[0])
+                ns = dict(a=a, V=v, G=good[1])
                 from ..bfs import run_src
                 got = run_src(ns, src)
                 after = a.data.bin
@@ -317,7 +319,7 @@ def arrays(bs, acc):
                 if not good_:
                     kind = 'frame' if (not ok and got[0] == 'exc' and after != before) else ('noexc' if not ok and got[0] == 'ok' else ('exc' if ok else 'excclass'))
                     acc.violation('array', kind, dict(dtype=dt, value=repr(v), op=op, group=f'{op}|{kind}'),
-                                  '\n'.join(["import bitstring", f"a = bitstring.Array({dt!r}, [{good[0]!r}, {good[-1]!r}])", "before = a.data.bin", f"G, V = {good[0]!r}, {v!r}",
+                                  '\n'.join(["import bitstring", f"a = bitstring.Array({dt!r}, [{good[0]!r}] * 3)", "before = a.data.bin", f"G, V = {good[1]!r}, {v!r}",
                                              "try:", f"    {src}", "    ok = True", "except ValueError:", "    ok = False",
                                              f"assert ok is {ok} and (ok or a.data.bin == before), (ok, a.data.bin, before)"]), 'accept' if ok else 'reject, unchanged', (got, after))
                 acc.outcome(('array', dt, op, ok))
